@@ -327,8 +327,97 @@ struct DefaultsEngine : EngineBase {
   template <class AS, class MS>
   void bounds(const AS &, const MS &, const typename MS::value_type &, const char *, std::false_type) {}
 
+
+  // ------------------------------------------------------------------ merges between sets ordered by DIFFERENT standard comparators
+  // (std::less<int> / std::less<unsigned> / std::less<> / std::greater<...> over the same element type: the source is not sorted the way the
+  //  destination sorts)
+  template <class CD, class CS>
+  void cross_merge(const char *name, int rounds) {
+    cname = name;
+    prop = "C03";
+    kSorted = true;
+    for (int r = 0; r < rounds && !g_cut; ++r) {
+      g_cur_op = r + 1;
+      amc::FlatSet<int, CD> d;
+      amc::FlatSet<int, CS> s;
+      std::set<int, CD> md;
+      std::set<int, CS> msrc;
+      size_t nd = rng.below(7), ns = rng.below(7);
+      for (size_t k = 0; k < nd; ++k) { int v = static_cast<int>(rng.below(24)) - 12; d.insert(v); md.insert(v); }
+      for (size_t k = 0; k < ns; ++k) { int v = static_cast<int>(rng.below(24)) - 12; s.insert(v); msrc.insert(v); }
+      set_op("merge(other standard comparator)", name, "-", fmt("%s <- %s", seq_str(md.begin(), md.end()).c_str(), seq_str(msrc.begin(), msrc.end()).c_str()));
+      window([&] { d.merge(s); });
+      md.merge(msrc);
+      scheck(d, md, "merge(other standard comparator): destination");
+      if (!g_cut) scheck(s, msrc, "merge(other standard comparator): source");
+      if (!g_cut && !d.empty()) {
+        int probe = *md.begin();
+        bool f = false;
+        window([&] { f = d.find(probe) != d.end() && d.contains(probe); });
+        if (!f) violation(prop, "defaults.lookup", fmt("%s: an element of the merged set is not found", name));
+      }
+    }
+  }
+
+  // ------------------------------------------------------------------ transparent standard comparators: keys of other types
+  template <class SS>
+  void hetero_int(const char *name, int rounds) {
+    cname = name;
+    prop = "C04,C11";
+    for (int r = 0; r < rounds && !g_cut; ++r) {
+      g_cur_op = r + 1;
+      SS s;
+      std::set<int, typename SS::key_compare> m;
+      size_t n = rng.below(10);  // below and above the inline capacity
+      for (size_t k = 0; k < n; ++k) { int v = Gen<int>::make(rng, 12); s.insert(v); m.insert(v); }
+      // drain / refill sometimes: back to the inline state
+      if (rng.chance(1, 3)) { while (m.size() > 2) { int v = *m.begin(); s.erase(v); m.erase(v); } }
+      static const long long keys[] = {0, 1, -1, 5, 300, -300, 4294967297LL, 4294967296LL, -4294967295LL, 2147483648LL, -2147483649LL, 0x7FFFFFFFFFFFFFFFLL, 65536 + 3, 256 + 1};
+      for (long long k : keys) {
+        set_op("lookup(key of another integral type)", name, s.size() > 4 ? "n>4" : "n<=4", fmt("key=%lld", k));
+        bool f1 = false, c1 = false; size_t n1 = 9;
+        const SS &cs = s;
+        window([&] { f1 = cs.find(k) != cs.end(); c1 = cs.contains(k); n1 = static_cast<size_t>(cs.count(k)); });
+        bool f2 = m.find(k) != m.end(); size_t n2 = m.count(k);
+        if (threw || f1 != f2 || c1 != f2 || n1 != n2) { violation(prop, "defaults.lookup", fmt("%s with %zu elements: find/contains/count(%lld) give %d/%d/%zu, std::set gives %d/%zu", name, m.size(), k, f1, c1, n1, f2, n2)); break; }
+        unsigned short us = static_cast<unsigned short>(k);
+        window([&] { f1 = cs.find(us) != cs.end(); c1 = cs.contains(us); });
+        f2 = m.find(us) != m.end();
+        if (threw || f1 != f2 || c1 != f2) { violation(prop, "defaults.lookup", fmt("%s: find/contains(unsigned short %u) give %d/%d, std::set gives %d", name, us, f1, c1, f2)); break; }
+      }
+    }
+  }
+  template <class SS>
+  void hetero_string(const char *name, const char *property, int rounds) {
+    cname = name;
+    prop = property;
+    for (int r = 0; r < rounds && !g_cut; ++r) {
+      g_cur_op = r + 1;
+      SS s;
+      std::set<std::string, std::less<> > m;
+      size_t n = rng.below(9);
+      for (size_t k = 0; k < n; ++k) { std::string v = Gen<std::string>::make(rng, 14); s.insert(v); m.insert(v); }
+      if (rng.chance(1, 3)) { while (m.size() > 2) { std::string v = *m.begin(); s.erase(v); m.erase(v); } }
+      for (int q = 0; q < 8 && !g_cut; ++q) {
+        std::string key = Gen<std::string>::make(rng, 14);
+        if (!m.empty() && rng.chance(1, 2)) { auto it = m.begin(); std::advance(it, rng.below(static_cast<uint32_t>(m.size()))); key = *it; }
+        char buf[80];
+        memset(buf, '#', sizeof buf);
+        snprintf(buf, sizeof buf, "%s", key.c_str());  // a buffer longer than the C string it holds
+        const char *cp = buf;
+        set_op("lookup(C string / array key)", name, s.size() > 4 ? "n>4" : "n<=4", key);
+        bool fa = false, fp = false, ca = false, cpn = false; size_t na = 9;
+        const SS &cs = s;
+        window([&] { fa = cs.find(buf) != cs.end(); fp = cs.find(cp) != cs.end(); ca = cs.contains(buf); cpn = cs.contains(cp); na = static_cast<size_t>(cs.count(buf)); });
+        bool want = m.find(cp) != m.end();
+        if (threw || fa != want || fp != want || ca != want || cpn != want || na != (want ? 1u : 0u))
+          violation(prop, "defaults.lookup", fmt("%s with %zu elements: find(array)/find(pointer)/contains(array)/contains(pointer)/count(array) of '%s' give %d/%d/%d/%d/%zu, std::set gives %d", name, m.size(), Gen<std::string>::str(key).c_str(), fa, fp, ca, cpn, na, want));
+      }
+    }
+  }
+
   // ------------------------------------------------------------------ cases
-  enum { kVecCases = 12, kFlatCases = 10, kSmallCases = 10 };
+  enum { kVecCases = 12, kFlatCases = 16, kSmallCases = 14 };
   void run(const std::string &only, uint64_t seed, long h, int nops) {
     begin_history(seed, h, 0xDEF);
     typedef std::pair<int, std::string> PS;
@@ -358,7 +447,13 @@ struct DefaultsEngine : EngineBase {
         case 6: set_history<amc::FlatSet<PS>, std::set<PS>, true>("FlatSet<pair<int,string>>", "C03", 1000, nops, 12); break;
         case 7: set_history<amc::FlatSet<int, std::less<int>, amc::allocator<int>, amc::SmallVector<int, 6> >, std::set<int>, true>("FlatSet<int,SmallVector<6>>", "C03", 1000, nops, 24); break;
         case 8: set_history<amc::FlatSet<int, std::less<int>, amc::vec::EmptyAlloc, amc::FixedCapacityVector<int, 16> >, std::set<int>, true>("FlatSet<int,FixedCapacityVector<16>>", "C03", 16, nops, 24); break;
-        default: set_history<amc::FlatSet<int, std::less<int>, std::allocator<int>, std::vector<int> >, std::set<int>, true>("FlatSet<int,std::vector>", "C03", 1000, nops, 24); break;
+        case 9: set_history<amc::FlatSet<int, std::less<int>, std::allocator<int>, std::vector<int> >, std::set<int>, true>("FlatSet<int,std::vector>", "C03", 1000, nops, 24); break;
+        case 10: cross_merge<std::less<int>, std::less<unsigned> >("FlatSet<int,less<int>> <- FlatSet<int,less<unsigned>>", nops / 4); break;
+        case 11: cross_merge<std::less<unsigned>, std::less<int> >("FlatSet<int,less<unsigned>> <- FlatSet<int,less<int>>", nops / 4); break;
+        case 12: cross_merge<std::less<>, std::less<unsigned> >("FlatSet<int,less<>> <- FlatSet<int,less<unsigned>>", nops / 4); break;
+        case 13: cross_merge<std::greater<int>, std::greater<unsigned> >("FlatSet<int,greater<int>> <- FlatSet<int,greater<unsigned>>", nops / 4); break;
+        case 14: cross_merge<std::less<int>, std::greater<int> >("FlatSet<int,less<int>> <- FlatSet<int,greater<int>>", nops / 4); break;
+        default: hetero_string<amc::FlatSet<std::string, std::less<> > >("FlatSet<std::string,std::less<>>", "C03", nops / 4); break;
       }
     } else {
       typedef amc::SmallSet<int, 6, std::less<int>, amc::allocator<int>, amc::FlatSet<int> > SSF;
@@ -373,7 +468,11 @@ struct DefaultsEngine : EngineBase {
         case 6: set_history<amc::SmallSet<int, 3, std::greater<int> >, std::set<int, std::greater<int> >, false>("SmallSet<int,3,std::greater>", "C04,C11", 1000, nops, 12); break;
         case 7: set_history<amc::SmallSet<PS, 3>, std::set<PS>, false>("SmallSet<pair<int,string>,3>", "C04,C11", 1000, nops, 8); break;
         case 8: set_history<amc::SmallSet<double, 5>, std::set<double>, false>("SmallSet<double,5>", "C04,C11", 1000, nops, 14); break;
-        default: set_history<amc::SmallSet<int64_t, 2>, std::set<int64_t>, false>("SmallSet<int64_t,2>", "C04,C11", 1000, nops, 8); break;
+        case 9: set_history<amc::SmallSet<int64_t, 2>, std::set<int64_t>, false>("SmallSet<int64_t,2>", "C04,C11", 1000, nops, 8); break;
+        case 10: hetero_int<amc::SmallSet<int, 4, std::less<> > >("SmallSet<int,4,std::less<>>", nops / 4); break;
+        case 11: hetero_int<amc::SmallSet<int, 6, std::greater<> > >("SmallSet<int,6,std::greater<>>", nops / 4); break;
+        case 12: hetero_string<amc::SmallSet<std::string, 4, std::less<> > >("SmallSet<std::string,4,std::less<>>", "C04,C11", nops / 4); break;
+        default: hetero_string<amc::SmallSet<std::string, 5, std::less<>, amc::allocator<std::string>, amc::FlatSet<std::string, std::less<> > > >("SmallSet<std::string,5,std::less<>,FlatSet>", "C04,C11", nops / 4); break;
       }
     }
     if (!g_cut) end_history_ok();
